@@ -79,6 +79,7 @@ pub struct Compiler
 	analyzer: analyzer::Analyzer,
 	linter: linter::Linter,
 	generator: generator::Generator,
+	is_wasm: bool,
 }
 
 #[cfg(feature = "alpha")]
@@ -87,6 +88,8 @@ impl Compiler
 	/// Change the target triple from the current OS to WebAssembly.
 	pub fn for_wasm(&mut self) -> Result<(), anyhow::Error>
 	{
+		self.is_wasm = true;
+		self.linter.for_wasm();
 		self.generator.for_wasm()
 	}
 
@@ -98,6 +101,10 @@ impl Compiler
 		self.typer = typer::Typer::default();
 		self.analyzer = analyzer::Analyzer::default();
 		self.linter = linter::Linter::default();
+		if self.is_wasm
+		{
+			self.linter.for_wasm();
+		}
 		self.generator.add_module(module_name)
 	}
 
